@@ -15,9 +15,11 @@ DRIVERS = ['Json']   # model driver files this check runs: scopes translator fai
 TRUSTED = [
     "floats are opaque tokens: the model carries the text Rust's f64 Display printed (asked from the harness, op jfdisp) and the text "
     "the parser saw; ASSUMED: Rust's f64/f32 Display/FromStr round-trip (parse(display(x)) == x, also with '.0' appended to an integral value)",
-    "model abstraction: the byte cursors of the scanners are modelled on characters (justified in Rws/Json.lean: single-byte reads fail "
-    "exactly on non-ASCII characters; read_until only splits at ASCII delimiters; bytes_read == total_bytes iff no character is left)",
-    "Rust std: char::is_whitespace / is_ascii_control / is_numeric on ASCII, str::trim, str::parse::<iN/uN>, f64::from_str's grammar (modelled by hand)",
+    "model abstraction: the byte cursors of the scanners are modelled on characters (justified in Rws/Json.lean: the argument is a Rust String; every "
+    "single-character read is json::read_utf8_char + String::from_utf8, which on well-formed UTF-8 yields exactly the next character - theorem C19_read_chars, "
+    "and the op jreadchars compares that read with the model on arbitrary bytes; read_until only splits at ASCII delimiters; bytes_read == total_bytes iff no character is left)",
+    "Rust std: char::is_whitespace / is_ascii_control, str::trim, str::parse::<iN/uN>, f64::from_str's grammar (modelled by hand); char::is_numeric = table probed from "
+    "the toolchain (translator/gens/jsonnum.py), compared with the running std as a whole by the op jnumeric; UTF-8 decoding = core Lean's ByteArray.utf8DecodeChar?",
     "the harness structs Flat/Doc (harness/src/ops/json.rs) implement ToJSON/FromJSON/New the way the repository's test structs do",
 ]
 ASSUMPTIONS = [
@@ -72,11 +74,13 @@ def gen_f64(rng):
 
 PRINTABLE = [chr(c) for c in range(32, 127) if chr(c) not in '"\\']
 PLAIN = [c for c in PRINTABLE if c not in '{}[]']
-NONASCII = ['é', 'ß', 'Ł', 'я', '€', '漢', '\U0001F600', '\u00a0', 'ñ']
+NONASCII = ['é', 'ß', 'Ł', 'я', '€', '漢', '\U0001F600', '\u00a0', 'ñ', '\u0080', '\u07ff', '\u0800', '\uffff', '\U00010000', '\U0010FFFF', '\u3000', '٣', '½', '\U0001D7D8']
 
 def gen_str(rng, kind='plain'):
     n = rng.choice([0, 1, 2, 3, 5, 8, 13, 40]) if rng.chance(1, 2) else rng.range(0, 12)
     alpha = PLAIN if kind in ('plain', 'nonascii') else PRINTABLE
+    if kind == 'mixed':      # printable ASCII, brackets and non-ASCII characters of every encoded length in one string, at every position
+        return ''.join(rng.choice(NONASCII) if rng.chance(1, 4) else rng.choice('{}[]') if rng.chance(1, 4) else rng.choice(PRINTABLE) for _ in range(n))
     s = ''.join(rng.choice(alpha) for _ in range(n))
     if kind == 'nonascii':
         p = rng.range(0, len(s)); s = s[:p] + rng.choice(NONASCII) + s[p:]
@@ -285,10 +289,100 @@ def pathological(tier):
            b'[]', b'{}', b'[ ]', b'{ }', b'[]]', b'{}}', b'{"a": 1}}', b'[1]]', b'[1] x', b'{"a": 1} x', b'x[1]', b'x{"a": 1}']
     return out
 
+# ------------------------------------------------------------------ regression cases of the repaired defects (run first)
+def regression_cases(res):
+    """the inputs that failed before a `fix:` commit: they must give the right answer on the real code, and the model must agree"""
+    P = lambda name, ty, val: '%s:%s:%s' % (hx(name), hx(ty), val)
+    nested = '{\r\n  "b": "}"\r\n}'
+    reg = [('jobjparse ' + hx('{"a": -5}'), 'ok 1 61:69313238:i=-5'), ('jsplit ' + hx('[1,-2]'), 'ok 2 31,2d32'), ('jsplit ' + hx('[-1]'), 'ok 1 2d31'),
+           ('jlist_i128 ' + hx('[-1,2]'), 'ok 2 -1,2'), ('jobjparse ' + hx('{}'), 'ok 0'), ('jobjparse ' + hx('{\r\n\r\n}'), 'ok 0'),
+           ('jlist_i128 ' + hx('[1,'), 'err'), ('jlist_u8 ' + hx('['), 'err'),
+           ('jlist_bool ' + hx('[1,'), 'err'), ('jlist_string ' + hx('[1,'), 'err'), ('jlist_null ' + hx('x'), 'err'), ('jlist_f64 ' + hx('x'), 'err'),
+           ('jrt doc {%s=f3ff0000000000000:31}' % hx('f1'), None), ('jrt doc {}', None), ('jrt doc {%s=i-5}' % hx('i1'), None),
+           # F24d: a non-ASCII character in a string (witness of the finding first; 2-, 3-, 4-byte characters; names; nested; arrays)
+           ('jlist_string ' + hx('["é"]'), 'ok 1 ' + hx('é')), ('jsplit ' + hx('["é"]'), 'ok 1 ' + hx('"é"')),
+           ('jlist_string ' + hx('["é","€x","y\U0001F600"]'), 'ok 3 %s,%s,%s' % (hx('é'), hx('€x'), hx('y\U0001F600'))),
+           ('jobjparse ' + hx('{"a": "é"}'), 'ok 1 ' + P('a', 'String', 's=' + hx('é'))),
+           ('jobjparse ' + hx('{\r\n  "ключ": "€\U0001F600",\r\n  "b": true\r\n}'), 'ok 2 ' + P('ключ', 'String', 's=' + hx('€\U0001F600')) + ';' + P('b', 'bool', 'b=t')),
+           ('jobjparse ' + hx('{"a": {"b": "é"}, "c": ["€"]}'), 'ok 2 ' + P('a', 'object', 'o=' + hx('{"b": "é"}')) + ';' + P('c', 'array', 'a=' + hx('["€"]'))),
+           ('jsplit ' + hx('[{"b": "é"},["€"]]'), 'ok 2 %s,%s' % (hx('{"b": "é"}'), hx('["€"]'))),
+           ('jrt doc {%s=s%s}' % (hx('s1'), hx('é')), None), ('jrt doc {%s=Astr[%s,%s]}' % (hx('astr'), hx('é€'), hx('\U0001F600')), None),
+           ('jrt doc {%s=o{%s=s%s}}' % (hx('o1'), hx('s1'), hx('aé')), None), ('jrt doc {%s=Aobj[{%s=s%s}]}' % (hx('ao'), hx('s2'), hx('€b')), None),
+           ('jsplit ' + hx('[nu€]'), 'err'), ('jsplit ' + hx('[é]'), 'err'), ('jobjparse ' + hx('{"a": é}'), 'err'),
+           # F24f: a bracket inside a string of a nested value (witness of the finding first)
+           ('jobjparse ' + hx('{"a": {"b": "}"}}'), 'ok 1 ' + P('a', 'object', 'o=' + hx('{"b": "}"}'))),
+           ('jobjparse ' + hx('{\r\n  "a": ' + nested + '\r\n}'), 'ok 1 ' + P('a', 'object', 'o=' + hx(nested))),
+           ('jobjparse ' + hx('{"a": {"b": "{"}, "c": 1}'), 'ok 2 ' + P('a', 'object', 'o=' + hx('{"b": "{"}')) + ';' + P('c', 'i128', 'i=1')),
+           ('jobjparse ' + hx('{"a": ["]"], "c": ["["]}'), 'ok 2 ' + P('a', 'array', 'a=' + hx('["]"]')) + ';' + P('c', 'array', 'a=' + hx('["["]'))),
+           ('jobjparse ' + hx('{"a": {"}": 1}}'), 'ok 1 ' + P('a', 'object', 'o=' + hx('{"}": 1}'))),
+           ('jsplit ' + hx('[["]"],{"a": "}"}]'), 'ok 2 %s,%s' % (hx('["]"]'), hx('{"a": "}"}'))),
+           ('jsplit ' + hx('[["["],{"a": "{"},1]'), 'ok 3 %s,%s,31' % (hx('["["]'), hx('{"a": "{"}'))),
+           ('jrt doc {%s=o{%s=s%s}}' % (hx('o1'), hx('s1'), hx('}')), None), ('jrt doc {%s=Astr[%s,%s]}' % (hx('astr'), hx(']'), hx('[')), None),
+           ('jrt doc {%s=Aobj[{%s=s%s},{%s=s%s}]}' % (hx('ao'), hx('s1'), hx('}'), hx('s2'), hx('{')), None),
+           ('jrt doc {%s=o{%s=Astr[%s]}}' % (hx('o2'), hx('astr'), hx(']é')), None)]
+    ri, rm = run_cmp(res, [l for l, _ in reg], 'Json regression cases')
+    for (ln, want), a in zip(reg, ri):
+        res.count('regression case of a repaired defect')
+        if (want is not None and a != want) or (want is None and not a.endswith('# rt=same')):
+            res.fail('regression:' + ln.split(' ')[0], ln, a, None, f'repaired defect is back (expected {want or "rt=same"})')
+
+# ------------------------------------------------------------------ the byte level of the single-character read, std tables
+def utf8_boundary_chars():
+    return ['\x00', 'A', '\x7f', '\u0080', 'é', '\u07ff', '\u0800', '€', '\ud7ff', '\ue000', '\uffff', '\U00010000', '\U0001F600', '\U0010FFFF']
+
+def byte_level_lines(rng, quick):
+    """jreadchars: well-formed texts (every encoded length, boundaries), every truncation of them, every single byte, every two bytes with a
+    non-ASCII first byte, the boundary three- and four-byte forms (overlong, surrogates, above U+10FFFF), a wrong byte at every position"""
+    out = []
+    texts = [''.join(utf8_boundary_chars()), 'aé€\U0001F600z', 'é', '€', '\U0001F600', '["é"]', '{"ключ": "\U0001F600}"}'] + \
+            [''.join(rng.choice(NONASCII + ['a', '"', '}', ' ']) for _ in range(rng.range(1, 12))) for _ in range(20 if quick else 400)]
+    for t in texts:
+        b = t.encode()
+        out.append(b)
+        out += [b[:i] for i in range(len(b))]                                                   # truncated at every position (a lead byte at the very end included)
+        for i in range(len(b)):                                                                   # one wrong byte at every position
+            for v in (0x80, 0xbf, 0xc0, 0xc3, 0xe2, 0xed, 0xf0, 0xf4, 0xf5, 0xff, 0x41):
+                if len(out) % (1 if not quick else 3) == 0 or len(b) < 8: out.append(b[:i] + bytes([v]) + b[i + 1:])
+                else: out.append(b[:i] + bytes([v]) + b[i:])
+    out += [bytes([x]) for x in range(256)]
+    out += [bytes([x, y]) for x in range(0x80, 256) for y in (range(256) if not quick else list(range(0x7e, 0xc4)) + [0x00, 0x22, 0x41, 0xdf, 0xe0, 0xef, 0xf0, 0xf4, 0xf5, 0xff])]
+    for lead in (0xe0, 0xe1, 0xec, 0xed, 0xee, 0xef):
+        for b1 in (0x7f, 0x80, 0x9f, 0xa0, 0xbf, 0xc0):
+            for b2 in (0x7f, 0x80, 0xbf, 0xc0): out.append(bytes([lead, b1, b2])); out.append(bytes([lead, b1, b2, 0x41]))
+    for lead in (0xf0, 0xf1, 0xf3, 0xf4, 0xf5, 0xf7, 0xf8, 0xfc, 0xff):
+        for b1 in (0x7f, 0x80, 0x8f, 0x90, 0xbf, 0xc0):
+            for b2 in (0x7f, 0x80, 0xbf, 0xc0):
+                for b3 in (0x7f, 0x80, 0xbf, 0xc0): out.append(bytes([lead, b1, b2, b3]))
+    out += [rng.bytes(rng.range(1, 10)) for _ in range(300 if quick else 20000)]
+    return ['jreadchars ' + hx(b) for b in out]
+
+def check_byte_level(res, rng, quick):
+    lines = ['jnumeric'] + byte_level_lines(rng, quick)
+    impl, model = run_cmp(res, lines, 'Json single-character read (bytes) / std tables')
+    for ln, a in zip(lines, impl):
+        if ln == 'jnumeric':
+            res.count('char::is_numeric table')
+            import unicodedata
+            # independent sanity oracle (CPython's Unicode database may be of another Unicode version: landmarks only)
+            rs = [tuple(map(int, r.split('-'))) for r in a.split(' ')[1].split(',')] if a.startswith('ok ') else []
+            inside = lambda u: any(lo <= u <= hi for lo, hi in rs)
+            if not (inside(0x663) and inside(0xbd) and inside(0x2462) and not inside(0xe9) and not inside(0x20ac)):
+                res.fail('is-numeric-landmarks', ln, a[:100], None, 'char::is_numeric landmarks')
+            continue
+        res.count('jreadchars')
+        if not check_total(res, ln, a, 'json::read_utf8_char'): continue
+        b = C.unhx(ln.split(' ')[1])
+        try: want = 'ok ' + hx(b.decode('utf-8'))           # independent oracle: CPython's strict UTF-8 decoder
+        except UnicodeDecodeError: want = 'err'
+        if a != want:
+            res.fail('read-utf8-char', ln, a[:100], None, f'the single-character read of the JSON scanners does not decode UTF-8 as the reference decoder does (expected {want[:60]})')
+
 # ------------------------------------------------------------------ main
 def run(res, tier, seed):
     rng = C.Rng(seed)
     quick = tier == 'quick'
+    regression_cases(res)
+    check_byte_level(res, rng.fork('bytes'), quick)
     # ---- phase 0: generate documents and value lists, collect floats, ask the real code for their Display
     n_docs = 900 if quick else 12000
     docs = []          # (kind_tag, doc)
@@ -296,8 +390,9 @@ def run(res, tier, seed):
         depth = i % 5
         strkind = 'plain'
         r = rng.below(20)
-        if r == 0: strkind = 'nonascii'
-        elif r == 1: strkind = 'bracket'
+        if r in (0, 4): strkind = 'nonascii'
+        elif r in (1, 5): strkind = 'bracket'
+        elif r in (2, 3, 6): strkind = 'mixed'
         docs.append(('doc', gen_doc(rng, depth, strkind)))
     # every field kind alone, and absent: the 2^k presence patterns of the scalar fields at depth 0
     for mask in range(32):
@@ -371,7 +466,7 @@ def run(res, tier, seed):
         bs = [rng.chance(1, 2) for _ in range(n)]
         add('jwrite_bool ' + (','.join('t' if b else 'f' for b in bs) or '~'), ('wbool', bs))
     for _ in range(n_lists * 3):
-        kind = rng.choice(['plain', 'printable', 'printable', 'bracket', 'nonascii'] if rng.chance(1, 4) else ['printable'])
+        kind = rng.choice(['plain', 'printable', 'mixed', 'bracket', 'nonascii', 'mixed'] if rng.chance(1, 3) else ['printable'])
         ss = [gen_str(rng, kind) for _ in range(gen_len(rng))]
         add('jwrite_string ' + (','.join(hx(s) for s in ss) or '~'), ('wstr', ss))
     for l in float_lists:
@@ -456,10 +551,9 @@ def run(res, tier, seed):
         text = C.unhx(text_hex).decode('utf-8')
         if kind == 'rt':
             d = m[1]
-            known = None
-            if has_nonascii(d): known = 'nonascii-string'
-            elif nested_bracket(d): known = 'bracket-in-nested-string'
-            res.count('struct round trip' + (' [' + known + ']' if known else ''))
+            # input classes of the repaired defects F24d / F24f: counted, judged like every other document
+            cls = ' [non-ASCII string]' if has_nonascii(d) else ' [bracket in a nested string]' if nested_bracket(d) else ''
+            res.count('struct round trip' + cls)
             try:
                 got = json.loads(text, parse_float=str, parse_int=int)
                 if not same_value(doc_py(d), got):
@@ -469,7 +563,7 @@ def run(res, tier, seed):
             rt = a.split(' # rt=')[1]
             ok_rt = rt == 'same' or (rt == 'sametext' and has_neg_zero(d))
             if not ok_rt:
-                res.fail(known or 'struct-roundtrip', ln[:300], a[:200], None, f'parse(to_json_string(x)) != x (rt={rt})')
+                res.fail('struct-roundtrip', ln[:300], a[:200], None, f'parse(to_json_string(x)) != x (rt={rt})')
             continue
         # typed lists
         want = m[-1]
@@ -494,7 +588,7 @@ def run(res, tier, seed):
     impl2, model2 = run_cmp(res, lines2, 'Json typed list readers')
     for ln, (kind, want), a in zip(lines2, meta2, impl2):
         if not check_total(res, ln, a, ln.split(' ')[0]): continue
-        known = None
+        cls = ''
         if kind == 'objrt':
             got = norm_impl(ln, a).split(' ')        # `ok <n> <p1;p2;...>`; the properties are compared as a set of (name, type, value)
             if got[:2] != ['ok', str(len(want))] or sorted(got[2].split(';') if len(got) > 2 else []) != sorted(want):
@@ -505,13 +599,41 @@ def run(res, tier, seed):
         elif kind == 'wbool': exp = 'ok 0' if not want else 'ok %d %s' % (len(want), ','.join('t' if b else 'f' for b in want))
         elif kind == 'wstr':
             exp = 'ok 0' if not want else 'ok %d %s' % (len(want), ','.join(hx(s) for s in want))
-            if any(not s.isascii() for s in want): known = 'nonascii-string'
+            if any(not s.isascii() for s in want): cls = ' [non-ASCII string]'
+            elif any(c in s for s in want for c in '{}[]'): cls = ' [bracket in a string]'
         elif kind == 'wf64':
             exp = 'ok 0' if not want else 'ok %d %s' % (len(want), ','.join('%016x' % f64_bits(x + 0.0 if x != 0 else 0.0) for x in want))
         else: exp = 'ok 0' if not want else 'ok %d %s' % (len(want), ','.join('%08x' % (b if b != 0x80000000 else 0) for b in want))
-        res.count('list round trip ' + kind + (' [' + known + ']' if known else ''))
+        res.count('list round trip ' + kind + cls)
         if a != exp:
-            res.fail(known or 'list-roundtrip:' + ln.split(' ')[0], ln[:300], a[:200], None, f'parse_as_list(to_json(xs)) != xs; expected {exp[:200]}')
+            res.fail('list-roundtrip:' + ln.split(' ')[0], ln[:300], a[:200], None, f'parse_as_list(to_json(xs)) != xs; expected {exp[:200]}')
+
+    # ---- phase 2b: the splitter on arrays whose elements are texts the real writers produced (arrays nested in arrays, objects, mixtures):
+    # the library has no writer for an array of arrays, but the splitter's nested-array loop is reachable through its public entry point;
+    # every element must come back verbatim, whatever its strings hold
+    wr_arr = [C.unhx(ln.split(' ')[1]).decode() for ln, (k, _) in zip(lines2, meta2) if k != 'objrt']
+    wr_str = [C.unhx(ln.split(' ')[1]).decode() for ln, (k, w) in zip(lines2, meta2) if k == 'wstr' and any(not x.isascii() or any(c in x for c in '{}[]') for x in w)]
+    wr_obj = [C.unhx(a.split(' ')[1]).decode() for ln, a in zip(lines, impl) if ln.startswith('jrt ') and a.startswith('ok ')]
+    r2 = rng.fork('nested-arrays')
+    lines2b, meta2b = [], []
+    for i in range(250 if quick else 4000):
+        pool = wr_str if (i % 2 == 0 and wr_str) else wr_arr if i % 3 else wr_arr + wr_obj
+        items = [r2.choice(pool) for _ in range(r2.choice([1, 1, 2, 3, 5]))]
+        if sum(map(len, items)) > 4000: continue
+        sep = r2.choice([',', ',', ', ', ',\r\n'])
+        lines2b.append('jsplit ' + hx('[' + sep.join(items) + ']')); meta2b.append(items)
+    impl2b, _ = run_cmp(res, lines2b, 'Json splitter on arrays of written values')
+    for ln, items, a in zip(lines2b, meta2b, impl2b):
+        res.count('jsplit array of written arrays / objects')
+        if not check_total(res, ln, a, 'jsplit'): continue
+        text = C.unhx(ln.split(' ')[1]).decode()
+        try:
+            if json.loads(text, parse_float=str) != [json.loads(t, parse_float=str) for t in items]:
+                res.fail('harness-nested-array', ln[:200], a[:100], None, 'generator: the outer text does not mean the list of its elements')
+        except ValueError: pass          # -0 / inf tokens of float lists: not this oracle's business
+        exp = 'ok %d %s' % (len(items), ','.join(hx(t) for t in items))
+        if a != exp:
+            res.fail('split-nested:jsplit', ln[:300], a[:200], None, f'the splitter does not hand back the nested values verbatim; expected {exp[:200]}')
 
     # ---- phase 3: readers / scanners on arbitrary and malformed text (differential + totality)
     objs, arrs = repo_corpus()
@@ -525,12 +647,20 @@ def run(res, tier, seed):
                 '{"\u00a0a": 1}', '{"a\u00a0": "b"}', '{"a":\u00a01}', '{"a": "}"}', '{"a": {"b": "}"}}', '{"a": ["]"]}', '{"a": 170141183460469231731687303715884105728}',
                 '{"a": -170141183460469231731687303715884105728}', '{"a": -170141183460469231731687303715884105729}', '{"a": 1e400}', '{"a": 00012}', '{"a": -0}', '{"a": 1.}',
                 '{"a": .5}', '{"a": 1e}', '{"a": -}', '{"a": -e}', '{"a": e}', '{"a": 5e-324}', '{"a": "\t"}', '{\t"a"\t:\t1\t}', '{"a": \x7f1}', '"a": 1}', '{a: 1}', "{'a': 1}"]
-    hand_arr = ['[-1,2]', '[1,-2]', '[-1]', '["é"]', '[é]', '[1,', '[nu€]', ' é[', '[1]é', '[1é]', '[[é]]', '[{é}]', '[1 é]', '[falsé]', '[ --35346, 456, 6,7 ,8]',
+    hand_obj += ['{"a": ٣}', '{"a": 1٣}', '{"a": ½}', '{"a": -٣}', '{"a"\u00a0: 1}', '{"a": "é}', '{"a": {"b": "é}', '{"a": ["é]', '{"a": {"b": "}}', '{"a": {"b": "x\\"}"}}', '{"a": {"b\\": 1}}',
+                 '{"a": {"b": "\\"}}', '{"a": ["\\"]"]}', '{"a": ["x\\"]}', '{"a": {"}": "{"}}', '{"a": {"b": "}"}, "c": {"d": "{"}}', '{"a": [{"b": "]"}], "c": "["}', '\u3000{"a": 1}', '{"a": 1}\u3000',
+                 '{"é": 1}', '{"é": "€", "\U0001F600": [1, "]"]}', '{"a": "é", }', '{"a": "é" é}', '{"a": "é"é}', '{"a": né}', '{"a": tré}', '{"a": [é]}', '{"a": {é}}', '{"a": 1é}', '{"a": -é}',
+                 '{"a": "\U0001F600', '{"a": {"b": "\U0001F600', '{"a\U0001F600', '{"a": "x" }é', '{"a": 1 }é', '{"a": nullé}', '{"a": "€",\u00a0"b": 1}']
+    hand_arr = ['[٣]', '[1٣]', '[½,٣]', '[-٣]', '[٣ ]', '[٣ ,1]', '[1,٣.٣]', '\u00a0[1]', '\u3000[1]\u3000', '[1]\u0085', '[1]\u2028\u2029', '[\u00a01]', '[1\u00a0]', '[1,\u00a02]', '\u0085\u1680[]',
+                '["é","€","\U0001F600"]', '["é]', '["é', '["\U0001F600', '[["é"]', '[{"a": "é"}', '[["]"]', '[{"a": "}"}', '[["\\"]"]]', '[["x\\"]]', '[{"a\\": 1}]', '[{"a": "\\"}"}]',
+                '[["]"],["["]]', '[{"}": "{"},["[","]"]]', '[[é]]', '[{é}]', '[["é"],{"k": "€"}]', '[ "é" ,"€"]', '["é" ]', '["é"x]', '[né]', '[tré]', '[falsé]', '[nul\U0001F600]', '[n\U0001F600]',
+                '[-1,2]', '[1,-2]', '[-1]', '["é"]', '[é]', '[1,', '[nu€]', ' é[', '[1]é', '[1é]', '[[é]]', '[{é}]', '[1 é]', '[falsé]', '[ --35346, 456, 6,7 ,8]',
                 '[  123, 456 6,7 ,8  ]', '[1 ,2]', '[1  ,2]', '[1 ]', '[1 2]', '["a" ,"b"]', '["a""b"]', '[,,,]', '[,1,]', '[1,,2]', '["a\\"b"]', '["a\\\\"]', '["a\\"]',
                 '[true,false,null]', '[truefalse]', '[nullnull]', '[1e5]', '[1e-5]', '[-1e-5]', '[1.5.5]', '[1ee5]', '[1-2-3]', '[-1-2]', '[+1]', '[.5]', '[1.]', '[{"a": [1]}, [2, {"b": 3}]]',
                 '["]"]', '[["]"]]', '[{"a": "}"}]', '\t[1]\n', '[1]\n\n', '[\n1\n]', '[\t1]', '[1\t]', '[1\n,2]', '[\x7f]', '[\x001]', '[" "]', '[ "a" ]', '[" a "]', '["\u00a0"]',
                 '[0]', '[00]', '[-0]', '[256]', '[-129]', '[340282366920938463463374607431768211456]', '[inf]', '[nan]', '[NaN]', '[-inf]', '[1_0]', '[0x1]', '[1E5]', '[ ]', '[]x', '[] ', ' []']
-    hand_prop = ['"a": 1', 'a: 1', '"a":1', ' "a" : "b" ', '"a": null', '"a": nan', '"a": inf', '"a": -Infinity', '"a": +1', '"a": 1e5', '"a": 1E5', '"a": .5', '"a": 1.', '"a": .',
+    hand_prop = ['"é": "€"', '"\U0001F600": 1', '"a": ٣', '"a": "é', '"a": é', '"a": {"b": "}"}', '"a": ["]"]', '\u3000"a": 1\u3000', '"a]": "[b"', '"a": "}"', '"{": 1',
+                 '"a": 1', 'a: 1', '"a":1', ' "a" : "b" ', '"a": null', '"a": nan', '"a": inf', '"a": -Infinity', '"a": +1', '"a": 1e5', '"a": 1E5', '"a": .5', '"a": 1.', '"a": .',
                  '"a": "', '"a": ""', '"a": [', '"a": []', '"a": {}', '"a": {', '"a": true', '"a": True', '"a": ', '"a":', ':', '', 'abc', '"a:b": 1', '"a": "b:c"', '"a": "b\\"c"',
                  '\u00a0"a"\u00a0:\u00a0"b"\u00a0', '"a": 1_0', '"a": 0x10', '"a": 1e', '"a": e1', '"a": -', '"a": +', '"a": 1e+5', '"a": 1e-5', '"a": -0', '"a": -0.0', '"a": NaN',
                  '"a": infinity', '"a": INF', '"a": 99999999999999999999999999999999999999999', '"a": 170141183460469231731687303715884105727', '"a": [1', '"a": 1]', '"a"": 1']
@@ -583,16 +713,16 @@ def run(res, tier, seed):
         add3('jobjparse', b, 'pathological'); add3('jsplit', b, 'pathological'); add3(rng.choice(list_ops), b, 'pathological')
     for _ in range(300 if quick else 20000):
         n = rng.range(0, 24)
-        b = ''.join(rng.choice('{}[]",:\\ \r\n\t-+.e0123456789ntfalsru' + 'éx') for _ in range(n)).encode()
+        b = ''.join(rng.choice('{}[]",:\\ \r\n\t-+.e0123456789ntfalsru' + 'éx€\U0001F600٣\u00a0') for _ in range(n)).encode()
         add3(rng.choice(['jobjparse', 'jsplit', 'jprop'] + list_ops[:3]), b, 'random')
     # small exhaustive sub-space: every string of length <= L over a delimiter alphabet, through the splitter and the object scanner
     import itertools
     L = 4 if quick else 5
     for n in range(0, L + 1):
-        for tup in itertools.product('[]",1- n', repeat=n):
+        for tup in itertools.product('[]",1- n' + 'é\\', repeat=n):
             add3('jsplit', ''.join(tup).encode(), 'exhaustive')
     for n in range(0, L):
-        for tup in itertools.product('{}":1,- ', repeat=n):
+        for tup in itertools.product('{}":1,- ' + 'é\\[]', repeat=n):
             add3('jobjparse', ('{"' + ''.join(tup)).encode(), 'exhaustive')
     impl3, model3 = run_cmp(res, lines3, 'Json readers on arbitrary text')
     for ln, (op, origin), a in zip(lines3, meta3, impl3):
@@ -601,30 +731,20 @@ def run(res, tier, seed):
         if a not in ('err', 'badutf8') and not a.startswith('ok') and not a.startswith('panic') and not a.startswith('abort'):
             res.fail('harness-protocol', ln[:200], a[:100], None, 'unexpected result line')
 
-    # regression cases of the repaired defects: they must now give the right answer (both sides already compared above)
-    reg = [('jobjparse ' + hx('{"a": -5}'), 'ok 1 61:69313238:i=-5'), ('jsplit ' + hx('[1,-2]'), 'ok 2 31,2d32'), ('jsplit ' + hx('[-1]'), 'ok 1 2d31'),
-           ('jlist_i128 ' + hx('[-1,2]'), 'ok 2 -1,2'), ('jobjparse ' + hx('{}'), 'ok 0'), ('jobjparse ' + hx('{\r\n\r\n}'), 'ok 0'),
-           ('jsplit ' + hx('["é"]'), 'err'), ('jsplit ' + hx('[nu€]'), 'err'), ('jlist_i128 ' + hx('[1,'), 'err'), ('jlist_u8 ' + hx('['), 'err'),
-           ('jlist_bool ' + hx('[1,'), 'err'), ('jlist_string ' + hx('[1,'), 'err'), ('jlist_null ' + hx('x'), 'err'), ('jlist_f64 ' + hx('x'), 'err'),
-           ('jrt doc {%s=f3ff0000000000000:31}' % hx('f1'), None), ('jrt doc {}', None), ('jrt doc {%s=i-5}' % hx('i1'), None)]
-    ri, rm = run_cmp(res, [l for l, _ in reg], 'Json regression cases')
-    for (ln, want), a in zip(reg, ri):
-        res.count('regression case of a repaired defect')
-        if (want is not None and a != want) or (want is None and not a.endswith('# rt=same')):
-            res.fail('regression:' + ln.split(' ')[0], ln, a, None, f'repaired defect is back (expected {want or "rt=same"})')
-
     res.notes.append('audit classes (vlib/gen_c19.py): %d documents on top of the %d random ones; property lists with free names' % (len(docs) - n_random_docs, n_random_docs))
-    res.rule = ('typed lists: every integer width x {empty, extremes, random lengths 0..64} written by the real writer, checked by CPython json, read back by the '
-                'real reader; bool/null lists of every length 0..64; string lists (printable ASCII without quote/backslash; also with brackets and non-ASCII); '
+    res.rule = ('regression cases of the repaired defects first; typed lists: every integer width x {empty, extremes, random lengths 0..64} written by the real writer, checked by CPython json, read back by the '
+                'real reader; bool/null lists of every length 0..64; string lists (printable text without quote/backslash: ASCII, brackets, non-ASCII of every encoded length); '
                 'f64/f32 lists by bit pattern; structs Flat and Doc (25 optional fields of every kind, nesting depth 0..4, all 32 presence patterns of the scalar '
                 'fields); audit classes: every field alone / every pair of fields / every field missing, depth 0..4 through every link kind with full levels, '
                 'arrays of objects up to 64 elements, strings that look like other tokens, format punctuation, blanks at the ends, every printable character first and '
                 'last, strings up to 4 097 characters (thorough 65 537), twin fields, integers and floats at every power of two and ten with neighbours, every list '
                 'length 0..64, repeated values in every list type, f32 limits, well-typed property lists with free identifier names and 0..64 members through '
                 'to_json_string / CPython json / parse_as_properties; readers on the repository test documents, valid texts in other layouts, hand-written edge cases, every truncation and random mutations of valid texts, '
-                'pathological inputs (nesting 10 000, 100 kB tokens), random delimiter soup and all strings of length <= %d over an 8-letter delimiter alphabet; '
+                'pathological inputs (nesting 10 000, 100 kB tokens), random delimiter soup and all strings of length <= %d over a 10-letter delimiter alphabet (a non-ASCII letter and the backslash included); '
+                'strings with 2-, 3- and 4-byte characters and with every bracket first / middle / last / alone, as field values, names, in nested objects (depth 1..3), arrays of strings and arrays of objects; '
+                'the single-character read of the scanners on arbitrary bytes (every truncation, a wrong byte at every position, boundary forms) against the UTF-8 decoder of CPython; '
                 'a case is non-trivial when its input is not empty; distinct = distinct protocol lines' % L)
-    res.exhaustive = 'all texts of length <= %d over {[ ] " , 1 - space n} through the splitter; all "{\\"" + texts of length < %d over {{ }} " : 1 , - space}} through the object scanner' % (L, L)
+    res.exhaustive = 'all texts of length <= %d over {[ ] " , 1 - space n é \\} through the splitter; all "{\\"" + texts of length < %d over {{ }} " : 1 , - space é \\ [ ]}} through the object scanner; every single byte and every byte pair with a non-ASCII first byte through the single-character read' % (L, L)
     k = next(i for i, l in enumerate(lines) if l.startswith('jrt doc') and len(l) > 200)
     res.sample({'op': lines[k][:300], 'implementation': impl[k][:300], 'model': model[k][:300]})
     k = next(i for i, m in enumerate(meta3) if m[1] == 'valid mutated')
